@@ -35,6 +35,7 @@ type TableDump struct {
 	HasRowid bool
 	RowIDs   []string   // rowid per row (rowid tables), same order as Rows
 	Rows     [][]string // quote(col) per column, in Cols order
+	Types    [][]string // typeof(col) per column, same shape as Rows
 }
 
 type Dump struct {
@@ -111,6 +112,9 @@ func dumpDB(ctx context.Context, db querier) (*Dump, error) {
 		for _, c := range t.Cols {
 			sel = append(sel, "quote("+qi(c.Name)+")")
 		}
+		for _, c := range t.Cols {
+			sel = append(sel, "typeof("+qi(c.Name)+")")
+		}
 		q := "SELECT " + strings.Join(sel, ", ") + " FROM " + qi(n)
 		if t.HasRowid {
 			q += " ORDER BY rowid"
@@ -139,7 +143,8 @@ func dumpDB(ctx context.Context, db querier) (*Dump, error) {
 				t.RowIDs = append(t.RowIDs, row[0])
 				row = row[1:]
 			}
-			t.Rows = append(t.Rows, row)
+			t.Rows = append(t.Rows, row[:len(t.Cols)])
+			t.Types = append(t.Types, row[len(t.Cols):])
 		}
 		if err := rows.Err(); err != nil {
 			rows.Close()
@@ -170,7 +175,7 @@ func equalTable(a, b *TableDump) bool {
 		return false
 	}
 	for i := range a.Rows {
-		if strings.Join(a.Rows[i], "\x00") != strings.Join(b.Rows[i], "\x00") {
+		if strings.Join(a.Rows[i], "\x00") != strings.Join(b.Rows[i], "\x00") || strings.Join(a.Types[i], ",") != strings.Join(b.Types[i], ",") {
 			return false
 		}
 	}
